@@ -1,6 +1,7 @@
 package main
 
 import (
+	"path/filepath"
 	"os"
 	"encoding/hex"
 	"fmt"
@@ -336,16 +337,35 @@ type buildCase struct {
 }
 
 // buildCaseOf runs the real code on one single-file document.
-func buildCaseOf(content []byte, banned []directive.Enumeration) (bc buildCase) {
+func buildCaseOf(content []byte, banned []directive.Enumeration) buildCase {
+	return buildCaseOfProject(Project{Files: map[string][]byte{"root.jst": content}, Root: "root.jst", Banned: banned})
+}
+
+// buildCaseOfProject runs the real code on a project (several files are written to a scratch directory).
+func buildCaseOfProject(p Project) (bc buildCase) {
 	defer func() {
 		if r := recover(); r != nil {
 			bc.Skip = "panic (C01 matter)"
 		}
 	}()
-	p := SingleFile(content)
 	curInput = &p
 	defer func() { curInput = nil }()
-	c2 := core.NewJApiCore(fs.NewFile("root.jst", content))
+	rootName := p.Root
+	if len(p.Files) > 1 {
+		d, err := os.MkdirTemp(scratchBase(), "jsvb")
+		if err != nil {
+			bc.Skip = "scratch"
+			return
+		}
+		defer os.RemoveAll(d)
+		for name, content := range p.Files {
+			full := filepath.Join(d, name)
+			_ = os.MkdirAll(filepath.Dir(full), 0o755)
+			_ = os.WriteFile(full, content, 0o644)
+		}
+		rootName = filepath.Join(d, p.Root)
+	}
+	c2 := core.NewJApiCore(fs.NewFile(rootName, p.Files[p.Root]))
 	if je := c2.VerifScanOnly(); je != nil {
 		bc.Skip = "rejected while scanning"
 		return
@@ -355,30 +375,33 @@ func buildCaseOf(content []byte, banned []directive.Enumeration) (bc buildCase) 
 		return
 	}
 	var valid bool
-	bc.Proto, bc.Dirs, valid = buildProto(c2.VerifDirectivesWithPastes(), banned)
+	bc.Proto, bc.Dirs, valid = buildProto(c2.VerifDirectivesWithPastes(), p.Banned)
 	if !valid {
 		bc.Skip = "invalid UTF-8 in a parameter (JSON coerces it)"
 		return
 	}
-	pr := Project{Files: p.Files, Root: p.Root, Banned: banned}
-	res := RunProject(pr, false)
-	if res.Panic != "" || res.JSErr != "" {
-		bc.Skip = "panic / serialisation error (C01/C09 matter)"
-		return
+	var oo []core.Option
+	if len(p.Banned) > 0 {
+		oo = append(oo, core.WithBannedDirectives(p.Banned...))
 	}
-	if res.Err != nil {
-		cl := classifyBuildMsg(res.Err.Msg)
+	oo = append(oo, core.WithFixedSeedForRegex())
+	c1 := core.NewJApiCore(fs.NewFile(rootName, p.Files[p.Root]), oo...)
+	if je := c1.ValidateJAPI(); je != nil {
+		cl := classifyBuildMsg(je.Msg)
 		if cl == "" {
 			bc.Skip = "diagnostic of a stage outside the model"
 			return
 		}
 		bc.Real = "err " + cl
 		for i, d := range bc.Dirs {
+			if d.file != je.VerifFile() {
+				continue
+			}
 			if cl == "descrParens" {
-				if d.hasBody && d.kind == directive.Description && res.Err.Index >= d.bodyB && res.Err.Index <= d.bodyE+1 {
+				if d.hasBody && d.kind == directive.Description && uint(je.Index()) >= d.bodyB && uint(je.Index()) <= d.bodyE+1 {
 					bc.ErrAt = append(bc.ErrAt, i)
 				}
-			} else if d.begin == res.Err.Index {
+			} else if d.begin == uint(je.Index()) {
 				bc.ErrAt = append(bc.ErrAt, i)
 			}
 		}
@@ -394,7 +417,12 @@ func buildCaseOf(content []byte, banned []directive.Enumeration) (bc buildCase) 
 		}
 		return
 	}
-	doc, _, err := ParseOJSON(res.JSON)
+	js, err := c1.Catalog().ToJson()
+	if err != nil {
+		bc.Skip = "serialisation error (C09 matter)"
+		return
+	}
+	doc, _, err := ParseOJSON(js)
 	if err != nil {
 		bc.Skip = "unreadable JSON (C09 matter)"
 		return
@@ -429,6 +457,18 @@ func compareBuild(bc buildCase, model string) string {
 
 // buildCorrespondence feeds documents to both sides.
 func buildCorrespondence(ctx *Ctx, docs [][]byte, bans [][]directive.Enumeration, label string) {
+	var pp []Project
+	for i, d := range docs {
+		p := SingleFile(d)
+		if bans != nil {
+			p.Banned = bans[i]
+		}
+		pp = append(pp, p)
+	}
+	buildCorrespondenceProjects(ctx, pp, label)
+}
+
+func buildCorrespondenceProjects(ctx *Ctx, projects []Project, label string) {
 	mp, err := ctx.Model("jsight-build")
 	if err != nil {
 		ctx.Break("correspondence catalog construction: model not available: " + err.Error())
@@ -437,12 +477,8 @@ func buildCorrespondence(ctx *Ctx, docs [][]byte, bans [][]directive.Enumeration
 	var cases []buildCase
 	var reqs []string
 	var idx []int
-	for i, d := range docs {
-		var bb []directive.Enumeration
-		if bans != nil {
-			bb = bans[i]
-		}
-		bc := buildCaseOf(d, bb)
+	for i := range projects {
+		bc := buildCaseOfProject(projects[i])
 		cases = append(cases, bc)
 		if bc.Skip != "" {
 			ctx.Cov.Hit("build: " + bc.Skip)
@@ -470,7 +506,7 @@ func buildCorrespondence(ctx *Ctx, docs [][]byte, bans [][]directive.Enumeration
 		if why := compareBuild(bc, out); why != "" {
 			bad++
 			if bad <= 3 {
-				ctx.Break(fmt.Sprintf("correspondence catalog construction (%s): document %q: implementation %q at %v, model %q", why, trunc(string(docs[i]), 700), trunc(bc.Real, 900), bc.ErrAt, trunc(out, 900)))
+				ctx.Break(fmt.Sprintf("correspondence catalog construction (%s): document %q: implementation %q at %v, model %q", why, trunc(string(projects[i].Files[projects[i].Root]), 700), trunc(bc.Real, 900), bc.ErrAt, trunc(out, 900)))
 			}
 		}
 	}
